@@ -26,6 +26,7 @@ class LoopFrame(StackFrame):
         super().__init__(parent)
         self.params = parent.params
         self._loop_var = {}
+        self.eval_depth = 0
 
     def get_loop_var(self, index):
         return self._loop_var.get(index, None)
@@ -105,12 +106,20 @@ class CallStack:
     def pop_frame(self) -> None:
         self._top = self._top.parent
 
-    def enter_loop(self) -> None:
+    def enter_loop(self, eval_depth=0) -> None:
         self._top = LoopFrame(self._top)
+        self._top.eval_depth = eval_depth
 
-    def exit_loop(self) -> None:
+    def exit_loop(self) -> int:
+        eval_depth = self._top.eval_depth
         self._top = self._top.parent
+        return eval_depth
 
-    def unwind_loops(self) -> None:
+    def unwind_loops(self):
+        # Returns the eval stack depth at entry to the outermost loop that was
+        # unwound, or None if there was no loop.
+        eval_depth = None
         while isinstance(self._top, LoopFrame):
+            eval_depth = self._top.eval_depth
             self._top = self._top.parent
+        return eval_depth
